@@ -757,7 +757,7 @@ fn main() {
 	} else if thorough {
 		2400
 	} else {
-		50
+		55
 	};
 	let started = Instant::now();
 	let deadline = started + Duration::from_secs(cap_s);
